@@ -437,6 +437,7 @@ pub proof fn lemma_inv_nfv_frame(w: World, w2: World)
 pub proof fn lemma_njstep(w: World, op: NJOp)
     requires inv_nfv(w), njop_guard(w, op),
     ensures inv_nfv(njop_post(w, op)), njop_post(w, op).ledger_seq >= w.ledger_seq,
+        !(op is Tick) ==> njop_post(w, op).ledger_seq == w.ledger_seq,
         forall|t: CheckpointType, q: u32| q < w.ledger_seq ==> #[trigger] past_value(njop_post(w, op), t, q) == past_value(w, t, q),
 {
     let w2 = njop_post(w, op);
@@ -493,7 +494,10 @@ pub proof fn lemma_nj_hist_point(w0: World, steps: Seq<NJOp>, t: CheckpointType,
     let w = nj_run(w0, steps);
     let pre = steps.drop_last();
     let wp = nj_run(w0, pre);
-    lemma_njstep(wp, steps.last());
+    let op = steps.last();
+    assert(njop_guard(wp, op));
+    assert(w == njop_post(wp, op));
+    lemma_njstep(wp, op);
     if w.ledger_seq <= q {
         assert(seq_ok(w, t));
         lemma_past_is_latest(w, t, q);
@@ -502,8 +506,11 @@ pub proof fn lemma_nj_hist_point(w0: World, steps: Seq<NJOp>, t: CheckpointType,
         if q < wp.ledger_seq {
             assert(past_value(w, t, q) == past_value(wp, t, q));
         } else {
-            assert(steps.last() is Tick);
-            lemma_inv_nfv_frame(wp, w);
+            assert(op is Tick);
+            match op {
+                NJOp::Tick { seq, ts } => { lemma_inv_nfv_frame(wp, w); }
+                _ => {}
+            }
         }
     }
 }
